@@ -181,16 +181,31 @@ def rule_G(run, prog):
             run.obligation(rid, "SystemBathInteraction." + gname, False, key="forwards-index",
                            message="getter %s is called by the hierarchy but not defined" % gname, loc=init.loc(call))
             continue
-        gp = [a.arg for a in g.node.args.args if a.arg != "self"]
-        fw = [c for c in ast.walk(g.node) if isinstance(c, ast.Call) and isinstance(c.func, ast.Attribute)
-              and norm(c.func.value) == "self.CC"]
-        bad = [norm(c) for c in fw if c.args and not all(isinstance(a, ast.Name) and a.id in gp for a in c.args)]
-        rebind = [norm(n) for n in ast.walk(g.node) if isinstance(n, (ast.Assign, ast.AugAssign))
-                  and any(isinstance(t_, ast.Name) and t_.id in gp for t_ in (n.targets if isinstance(n, ast.Assign) else [n.target]))
-                  and not (isinstance(n, ast.Assign) and isinstance(n.value, ast.Name) and n.value.id in gp)]
+        fw, bad, rebind = getter_forwards(g)
         run.obligation(rid, "SystemBathInteraction." + gname, bool(fw) and not bad and not rebind, key="forwards-index",
                        message="%s does not hand the bath index on unchanged: %s" % (gname, bad + rebind), loc=g.loc(),
                        sample={"getter": gname, "forwarding_calls": len(fw)})
+
+
+def getter_forwards(g):
+    """(calls of the getter that forward to self.CC, those that do not pass its parameters on as they are, statements
+    that re-bind a parameter to something else than another parameter - also inside a tuple target)."""
+    gp = [a.arg for a in g.node.args.args if a.arg != "self"]
+    fw = [c for c in ast.walk(g.node) if isinstance(c, ast.Call) and isinstance(c.func, ast.Attribute)
+          and norm(c.func.value) == "self.CC"]
+    bad = [norm(c) for c in fw if c.args and not all(isinstance(a, ast.Name) and a.id in gp for a in c.args)]
+    rebind = []
+    for n in ast.walk(g.node):
+        if not isinstance(n, (ast.Assign, ast.AugAssign)):
+            continue
+        tg = n.targets if isinstance(n, ast.Assign) else [n.target]
+        names = [x for t_ in tg for x in (t_.elts if isinstance(t_, (ast.Tuple, ast.List)) else [t_]) if isinstance(x, ast.Name)]
+        if not any(x.id in gp for x in names):
+            continue
+        if isinstance(n, ast.Assign) and isinstance(n.value, ast.Name) and n.value.id in gp:
+            continue          # `j = i`: a parameter filled in from another
+        rebind.append(norm(n))
+    return fw, bad, rebind
 
 
 def rule_F(run, prog):
